@@ -209,6 +209,13 @@ def _check_reshape_mut(prog, rep, f, writes):
             if tag(a) == 'bin' and a[1] == 'Div' and _same_size(a[2], size) and strip_casts(a[3]) == strip_casts(b2):
                 inferred, given = a, b2
         if inferred is None:
+            # dimensions handed back by an in-crate helper that can panic (`resolve_shape(size, nrows, ncols)` validating inside): the check is
+            # not in this body and is not read
+            helper = [z[1] for t_ in (r, c) for z in subterms(t_) if tag(z) == 'call' and z[1] in prog.pdb.bodies and prog.func(z[1]) is not None and prog.func(z[1]).cfg.panics]
+            if helper:
+                rep.undecided('matrix-invariant', key, 'shape (%s, %s) comes from %s, whose own validation is not read' % (show(r)[:40], show(c)[:40], short(helper[0])),
+                              site_of(span), proof=False)
+                return
             rep.viol('matrix-invariant', key, 'shape (%s, %s) is written without a check that rows*cols equals the element count' % (show(r), show(c)), site_of(span))
             return
         div_ok = any(v is True and tag(cn) == 'bin' and cn[1] == 'Eq' and _is_divisibility(cn, size, given) for cn, v in raw) or \
